@@ -11,6 +11,8 @@ mod perft;
 mod evaluation;
 mod transposition_table;
 mod repetition_table;
+#[cfg(jence_verif)]
+mod verif;
 
 use core::panic;
 use std::{io::{self}, process, time::SystemTime};
@@ -31,6 +33,9 @@ use transposition_table::*;
 use repetition_table::*;
 
 fn main() {
+    #[cfg(jence_verif)]
+    if verif::driver_requested() { verif::driver_main(); return; }
+
     let io_receiver = IoWrapper::init();
 
     let mut game = Game::new_from_start_pos();
